@@ -33,7 +33,7 @@ CHECKS = {
     "C05": {
         "text": "The multi-domain semantics is part of the specification: ID.tla derives the selection diagram (TransportNodes) and TV.tla builds, for every recorded problem, a family of generic SCMs in which source domain k shares every mechanism with the target except at the transport nodes; PP[pi*] terms are evaluated in the target, PP[pi_k][Z'] terms in domain k under do(Z'). Every estimand identify_target_outcomes returns on TLC-generated problems (graph x query x 0-3 domains (Z_k, W_k)) is validated by TLC against P*(y|do x) on all assignments; without a source domain the outcome class must agree with the ID oracle (TianOK); exceptions and mutation of the caller's graph are rejected.",
         "ref": "DESIGN.md section 4/C05",
-        "note": "3-node ADMGs exhaustively over graphs and queries with seeded domain configurations, seeded 4-node problems. No reference TRSO machine yet (conformance is against the semantics directly); no completeness claim beyond the no-domain case.",
+        "note": "Design level: TRSO.tla (reference TRSO, lines 1-11) is model-checked sound, reducing to ID without domains and vocabulary-preserving on all ordered 3-node ADMGs x queries x 20 single-domain configurations (thorough: plus two-domain configurations). Conformance: 3-node ADMGs exhaustively over graphs and queries with seeded domain configurations, seeded 4-node problems. No completeness claim beyond the no-domain case.",
         "technique": "TLA+ specification of multi-domain SCM semantics and selection diagrams; TLC-generated problems; trace validation of implementation outputs by TLC",
     },
     "C16": {
